@@ -1,6 +1,6 @@
 from __future__ import annotations
 from typing import Any
-from sympy import Expr, Symbol as SymSymbol
+from sympy import Expr, Symbol as SymSymbol, srepr
 from ..dimensions import Dimension, collect_expression_and_dimension
 
 
@@ -38,7 +38,8 @@ class Symbolic(SymSymbol):  # type: ignore[misc]  # pylint: disable=too-many-anc
         **assumptions: Any,
     ) -> Symbolic:
         cls_name = cls.__name__
-        inner = str(expr)
+        # NOTE: `str` shows display names, which different symbols may share
+        inner = srepr(expr)
         display_name = f"{cls_name}({inner})"
 
         obj = super().__new__(cls, display_name, **assumptions)
